@@ -70,6 +70,15 @@ pub fn triggers() -> Vec<String> {
             }
         }
     }
+    // a repeat before a group whose body starts with an optional variable-length term
+    for x in ["a", "[ab]", "b"] {
+        for q in ["*", "+", "?", "{1,2}"] {
+            for y in ["(?:(?:bc|d)?a)+", "(?:(?:bb|b)?a)+", "(?:(?:bc|d)*a){1,}", "(?:(?:cd|c)?ab){2,3}", "((?:(?:bc|d)?a)+)", "(?:(?:a|$)*b|c)d"] {
+                v.push(format!("{}{}{}", x, q, y));
+                v.push(format!("x{}{}{}y", x, q, y));
+            }
+        }
+    }
     // a repeat directly before a back-reference whose group may not have participated
     for p in [
         "(?:(a)|b)b*\\1b", "(a)?b+\\1b", "(a)*[bc]*\\1b", "^(?:(a)|b)c*\\1c$", "(a|ab|b)*c\\1", "^(a|ab|b)*\\1$", "(?:(a)|b)+b*\\1", "(a)?a*\\1a",
